@@ -1,10 +1,12 @@
 from common import T_COMMON
 
 CFG = dict(
-    theorems=["prim_wf", "uvSphere_wf", "uvSphereUnwelded_wf", "hemisphere_wf", "circle_wf", "cone_wf", "cylinder_wf",
+    theorems=["prim_wf", "uvSphere_wf", "uvSphereUnwelded_wf", "hemisphere_wf", "circle_wf", "cone_wf", "cylinder_wf", "cylinder_nocaps_wf",
               "quad_wf", "cube_wf", "cubeUnwelded_wf",
-              "unweld_wf", "removeUnreferenced_wf", "toPointCloud_wf", "flip_wf", "setIndices_wf"],
-    harness_files=["c02c03_mesh.go"],
+              "unweld_wf", "removeUnreferenced_wf", "toPointCloud_wf", "flip_wf", "setIndices_wf",
+              "append_wf", "setAttr_wf", "modifyAttr_wf", "mapAttr_wf", "setNormals_wf", "filterAttr_wf",
+              "filterAttr_rejects_non_point", "filterAttrOld_breaks_triangles", "crop_wf", "removeNullFaces_wf",
+              "splitOnMaterials_wf", "weld_wf", "repeatMesh_wf"],
     streams=[dict(name="c02", n=dict(quick=400, thorough=12000))],
     trusted=T_COMMON[1:] + [
         "hand-written pure models PolyVerif/Model/{Mesh,MeshOps,Primitives}.lean of modeling/mesh.go, modeling/meshops/*.go, "
